@@ -74,6 +74,7 @@ type memConn struct {
 	// fault plan
 	failWrite       int // index of Write call to fail (-1 none)
 	failRead        int
+	failReadErr     error // error returned by the failing Read (default errInjected)
 	failDead        int
 	shortWrite      int            // index of Write call that transfers only half and returns io.ErrShortWrite
 	afterWrite      map[int]func() // hook after the n-th write has been logged (before returning)
@@ -117,6 +118,9 @@ func (c *memConn) Read(p []byte) (int, error) {
 	c.nRead++
 	if idx == c.failRead {
 		c.ops = append(c.ops, opRec{Kind: "R", Err: true})
+		if c.failReadErr != nil {
+			return 0, c.failReadErr
+		}
 		return 0, errInjected
 	}
 	for {
